@@ -105,6 +105,105 @@ def oracle_store(store, how):
     return aasgen.diff(before, after)
 
 
+def write_json(store, how, **kw):
+    """the JSON document that write_aas_json_file / object_store_to_json produce for `store` through one kind of
+    destination (STREAM_KINDS + 'string' = object_store_to_json), as text; kw is passed on (stripped=..., encoder=...)"""
+    import pathlib
+    from basyx.aas.adapter.json import write_aas_json_file, object_store_to_json
+    if how == "string":
+        return object_store_to_json(store, **kw)
+    if how == "text":
+        buf = io.StringIO()
+        write_aas_json_file(buf, store, **kw)
+        return buf.getvalue()
+    if how == "binary":
+        buf = io.BytesIO()
+        write_aas_json_file(buf, store, **kw)
+        return buf.getvalue().decode("utf-8")
+    if how in ("tmp-binary", "tmp-text", "spooled"):
+        if how == "tmp-binary":
+            f = tempfile.NamedTemporaryFile(prefix="verif-c03-")
+        elif how == "tmp-text":
+            f = tempfile.NamedTemporaryFile("w+", encoding="utf-8", prefix="verif-c03-")
+        else:
+            f = tempfile.SpooledTemporaryFile(max_size=64)
+        with f:
+            write_aas_json_file(f, store, **kw)
+            f.seek(0)
+            d = f.read()
+            return d if isinstance(d, str) else d.decode("utf-8")
+    fd, path = tempfile.mkstemp(suffix=".json", prefix="verif-c03-")
+    os.close(fd)
+    try:
+        if how == "path":
+            write_aas_json_file(path, store, **kw)
+        elif how == "pathlib":
+            write_aas_json_file(pathlib.Path(path), store, **kw)
+        elif how == "file-binary":
+            with open(path, "wb") as f:
+                write_aas_json_file(f, store, **kw)
+        else:
+            with open(path, "w", encoding="utf-8") as f:
+                write_aas_json_file(f, store, **kw)
+        with open(path, "r", encoding="utf-8") as f:
+            return f.read()
+    finally:
+        os.remove(path)
+
+
+def scribble(obj, seen=None):
+    """changes, in place, every mutable value object reachable from obj (binary values, durations, lang string sets): what a
+    client may do with the objects a reader returned; returns the number of values changed"""
+    from dateutil.relativedelta import relativedelta
+    n = 0
+    seen = set() if seen is None else seen
+    if id(obj) in seen:
+        return 0
+    seen.add(id(obj))
+    for a, kind in aasgen.META.get(aasgen.meta_class_name(obj), []):
+        v = getattr(obj, a, None)
+        if isinstance(v, bytearray):
+            v.extend(b"!scribble")
+            n += 1
+        elif isinstance(v, relativedelta):
+            v.days += 3
+            n += 1
+        elif v is None or isinstance(v, (str, bytes, int, float, bool, type)):
+            continue
+        elif hasattr(v, "_dict") and isinstance(getattr(v, "_dict"), dict) and v._dict:
+            v._dict[next(iter(v._dict))] = "scribbled"
+            n += 1
+        elif isinstance(v, (list, set, frozenset, tuple)) or hasattr(v, "__iter__") and not isinstance(v, dict):
+            for x in list(v):
+                try:
+                    n += scribble(x, seen)
+                except TypeError:
+                    pass
+        else:
+            try:
+                n += scribble(v, seen)
+            except TypeError:
+                pass
+    return n
+
+
+def oracle_reread(store):
+    """Readers must be functions of the document: read it, change the returned objects in place, read the same text again
+    (same process) - the second result must equal the original.  Returns (diff or None, number of values changed)."""
+    from basyx.aas.adapter.json import write_aas_json_file, read_aas_json_file
+    before = strip_type(aasgen.canon_store(store))
+    buf = io.StringIO()
+    write_aas_json_file(buf, store)
+    text = buf.getvalue()
+    try:
+        st1 = read_aas_json_file(io.StringIO(text), failsafe=False)
+        n = sum(scribble(o) for o in st1)
+        st2 = read_aas_json_file(io.StringIO(text), failsafe=False)
+    except Exception as e:
+        return f"/: raised {type(e).__name__}: {str(e)[:150]}", 0
+    return aasgen.diff(before, strip_type(aasgen.canon_store(st2))), n
+
+
 def oracle_object(obj):
     from basyx.aas.adapter.json import AASToJsonEncoder, StrictAASFromJsonDecoder
     before = strip_type(aasgen.canon(obj))
@@ -196,6 +295,15 @@ def _run(chk):
                                    "; ".join(q(x) for x in sorted(falsy)) + "] : list string), " + common.coq_z(h) + ")")
             except ValueError:
                 pass
+        if i % 3 == 0:
+            d2, nchg = oracle_reread(store)
+            chk.count("reread-after-scribble")
+            chk.cov["values_changed_in_place_before_rereading"] = chk.cov.get("values_changed_in_place_before_rereading", 0) + nchg
+            if d2:
+                chk.fail(sig_of_diff(d2) + ":reread", f"reading the same JSON text a second time, after the objects of the first "
+                         f"read were changed in place, differs from the original: {d2}",
+                         {"how": f"seed={chk.seed} store #{i}: read, scribble, read again", "diff": d2,
+                          "canon_before": strip_type(aasgen.canon_store(store))})
         d = oracle_store(store, how)
         if d:
             chk.fail(sig_of_diff(d) + (f":{how}" if d.startswith("/: raised") else ""),
